@@ -8,6 +8,8 @@ from ..core import FUNC, call_attr, calls_in, const, dotted, is_const, kwarg, no
 from .c09 import waiter_rule, _stored_in_cancelled_table
 
 EXPLANATION = [
+    'C16.sink-chain: every set_packet_sink override in a BaseSource subclass chains to super().set_packet_sink (or assigns self.sink).',
+    'C16.cancel-dispatch: in utils.cancel_on_event, set_exception on the ensured future is reached only under `not isinstance(future, asyncio.Task)`.',
     'C16.loss-reaches-sink: every path of BaseSource.on_transport_lost on which a sink with on_transport_lost exists calls it (the state of `terminated` does not gate the notification).',
     "C16.subscription-of-live-bearer: every creation of a `subscribers[bearer]` entry in the GATT server is guarded by an identity test of the bearer's connection against device.lookup_connection(handle) (write handlers run in tasks, possibly after the disconnection was processed).",
     'C16.pending-table-scope: the per-connection table of pending enhanced credit-based requests is dropped only by ChannelManager.on_disconnection; everything else removes its own identifier from the inner table.',
@@ -754,7 +756,47 @@ def loss_reaches_sink(ctx):
     R.check(bool(res) and not bad, rule, 'bumble.transport.common.BaseSource.on_transport_lost', 'the sink is told on every path on which there is one', f'a path returns without telling the sink ({bad[:1]}): a source that has already settled `terminated` itself (PumpedPacketSource sets the read error first) never reports the loss - pending commands, connections and queued packets of the host wait for ever', p.loc(fn))
 
 
+def cancel_dispatch(ctx):
+    """utils.cancel_on_event releases the waiter according to what the ensured future *is*: a Task is cancelled, a plain
+    Future gets the CancelledError set (Task.set_exception raises RuntimeError - inside the emit of the disconnection, which
+    then never reaches the other listeners and the clean-up behind it)."""
+    R, p = ctx.r, ctx.p
+    rule = 'C16.cancel-dispatch'
+    fn = p.find('bumble.utils.cancel_on_event')
+    if fn is None:
+        R.bad(rule, 'bumble.utils.cancel_on_event', 'anchor missing')
+        return
+    sets = [c for c in ast.walk(fn) if isinstance(c, ast.Call) and call_attr(c) == 'set_exception']
+    R.check(len(sets) >= 1, rule, 'bumble.utils.cancel_on_event | set_exception', f'{len(sets)} site(s)', 'no set_exception site (anchor)', p.loc(fn))
+    for c in sets:
+        tgt = norm(c.func.value)
+        g = [(norm(t), pol) for t, pol in paths.flat_guards(c)]
+        ok = (f'isinstance({tgt}, asyncio.Task)', False) in g
+        R.check(ok, rule, f'bumble.utils.cancel_on_event | {tgt}.set_exception', f'only when {tgt} is not a Task', f'`{tgt}.set_exception(...)` is reached under {g}: for a waiter that is a Task (a caller passed a task it had created) this raises RuntimeError inside the event emission - the waiter is not released and the listeners after it (table clean-up, queue flush) never run', p.loc(c))
+
+
+def sink_chain(ctx):
+    """BaseSource.on_transport_lost() notifies `self.sink`: every override of set_packet_sink in a subclass of BaseSource
+    still records the sink there (chains to super() or assigns self.sink), or the Host is never told that its transport is
+    gone."""
+    R, p = ctx.r, ctx.p
+    rule = 'C16.sink-chain'
+    n = 0
+    for cn, ci in sorted(p.classes.items()):
+        if not cn.startswith('bumble.transport') or 'set_packet_sink' not in ci.methods:
+            continue
+        if not any(x.qual == 'bumble.transport.common.BaseSource' for x in p.mro(cn)[1:]):
+            continue
+        n += 1
+        fn = ci.methods['set_packet_sink']
+        ok = any(isinstance(c.func, ast.Attribute) and c.func.attr == 'set_packet_sink' and isinstance(c.func.value, ast.Call) and dotted(c.func.value.func) == 'super' for c in calls_in(fn)) or any(isinstance(s_, ast.Assign) and dotted(s_.targets[0]) == 'self.sink' for s_ in walk_local(fn))
+        R.check(ok, rule, f'{cn}.set_packet_sink', 'records the sink in BaseSource too', f'{ci.name}.set_packet_sink does not chain to BaseSource: `self.sink` stays None, so on_transport_lost() tells nobody - pending commands, connections and queued packets of the host wait for ever after the transport died', p.loc(fn))
+    R.check(n >= 1, rule, 'bumble.transport | set_packet_sink overrides', f'{n}', 'none found (anchor)')
+
+
 RULES = [
+    ('C16.sink-chain', sink_chain),
+    ('C16.cancel-dispatch', cancel_dispatch),
     ('C16.loss-reaches-sink', loss_reaches_sink),
     ('C16.subscription-of-live-bearer', subscription_of_live_bearer),
     ('C16.pending-table-scope', pending_table_scope),
